@@ -11,7 +11,7 @@ from ..tables import HTable, connect, parse
 SENTINEL = object()
 
 
-def _apply(cur, op, n, model_rows, fetched):
+def _apply(cur, op, n, model_rows, fetched, arraysize=None):
     """Apply one fetch operation; returns (label or None, new fetched)."""
     remaining = model_rows[fetched:]
     if op == 0:
@@ -28,7 +28,8 @@ def _apply(cur, op, n, model_rows, fetched):
             return 'fetchmany-value', fetched
     elif op == 2:
         got = cur.fetchmany()
-        want = remaining[:cur.arraysize]
+        # (the default size is the arraysize the user set, which no fetch may change)
+        want = remaining[:cur.arraysize if arraysize is None else arraysize]
         k = len(want)
         if not isinstance(got, list) or got != want:
             return 'fetchmany-default-value', fetched
@@ -149,12 +150,14 @@ def _hist_body(opcodes, nrows, sizes, arraysize, via_conn=False):
                 other.execute(parse('SELECT x + 1 FROM #t'))
             other.fetchone()
         else:
-            label, fetched = _apply(cur, op, n, rows, fetched)
+            label, fetched = _apply(cur, op, n, rows, fetched, arraysize)
             if label:
                 return label
         label = _attrs(cur, rows, fetched)
         if label:
             return label
+        if cur.arraysize != arraysize:
+            return 'arraysize-changed-by-an-operation'
         if len(cur.description) != 1 or cur.description[0].name != 'x':
             return 'description'
     return 'ok'
